@@ -56,6 +56,31 @@ Theorem C32_consistent_meaning : forall st,
   exists p bl, In (p, h) (d_idx st) /\ In (p, bl) (d_packs st) /\ In h bl.
 Proof. exact consistentb_spec. Qed.
 
+(* visited_skip_sound: a tree found in visitedTrees has its whole closure in the destination's blob set *)
+Theorem C32_visited_skip_sound : forall g visited dst t b,
+  covered g visited dst -> In t visited -> reach g t b -> In b dst.
+Proof. exact visited_skip_sound. Qed.
+
+(* one copyTree + CopyBlobs (worklist over trees, visitedTrees shared, blobs known to the destination
+   skipped): keeps the invariant [covered], visits the root, forgets nothing, and uploads only blobs the
+   destination did not have, each reachable from a visited tree *)
+Theorem C32_copy_tree_sound : forall g fuel visited dst root v' d',
+  covered g visited dst ->
+  copy_tree g fuel (visited, dst) root = Some (v', d') ->
+  covered g v' d' /\ In root v' /\ (forall x, In x visited -> In x v') /\ (forall x, In x dst -> In x d') /\
+  (forall x, In x d' -> In x dst \/ (~ In x dst /\ exists t, In t v' /\ reach g t x)).
+Proof. exact copy_tree_sound. Qed.
+
+(* copy_faithful at the data level: after a run over the selected roots every blob reachable from any
+   of them is in the destination's blob set — for every source graph and every prior destination *)
+Theorem C32_copy_run_closure : forall g fuel roots dst v' d',
+  copy_trees g fuel ([], dst) roots = Some (v', d') ->
+  forall r b, In r roots -> reach g r b -> In b d'.
+Proof. exact copy_run_closure. Qed.
+
+Print Assumptions C32_visited_skip_sound.
+Print Assumptions C32_copy_tree_sound.
+Print Assumptions C32_copy_run_closure.
 Print Assumptions C32_copy_idempotent.
 Print Assumptions C32_copy_faithful.
 Print Assumptions C32_copy_monotone.
